@@ -139,6 +139,15 @@ func (h *hook) updateKeys() error {
 		return err
 	}
 
+	// Only a successful response is a key set: an error page that happens to
+	// be JSON must not replace the keys in use.
+	if resp.StatusCode != http.StatusOK {
+		resp.Body.Close()
+		err = errors.New("unexpected HTTP status: " + resp.Status)
+		log.Error("failed to fetch JWK Set", log.Err(err))
+		return err
+	}
+
 	var parsedJWKs gojwk.Key
 	err = json.NewDecoder(resp.Body).Decode(&parsedJWKs)
 	if err != nil {
